@@ -28,6 +28,9 @@ def _pairs(rng, fr):
         ("y ~ binary(f)", "y ~ B(f)", "binary-default"),
         (f"y ~ binary(k, {kv})", f"y ~ B(k, {kv})", "binary-num"),
         ("y ~ binary(k)", "y ~ B(k)", "binary-num-default"),
+        ("y ~ binary(v, 0)", "y ~ B(v, 0)", "binary-num"),
+        (f"y ~ binary(v, {rng.choice([-2, -1, 0, 1, 2])})", None, "binary-num"),
+        ("y ~ x + binary(v, 0):z", "y ~ x + B(v, 0):z", "binary-inter"),
         (f"y ~ x + binary(g, '{s_g}'):z", f"y ~ x + B(g, '{s_g}'):z", "binary-inter"),
         ("y ~ x + offset(z)", None, "offset-col"),
         (f"y ~ x + offset({rng.choice([1, 2, 10])})", None, "offset-const"),
@@ -55,6 +58,8 @@ def gen(rng, tier):
     for _ in range(n):
         fr = gen_dm.make_frame(rng)
         nrows = len(fr["columns"][0]["values"])
+        # a signed integer column: 0 is a value like any other (and not the smallest)
+        fr["columns"].append(dm.col("v", "int", [[-2, 0, 1, 0, -1, 2][i % 6] for i in range(nrows)]))
         new = dm.select_rows(fr, [rng.randrange(nrows) for _ in range(rng.randint(1, 6))])
         for col in new["columns"]:
             if col["name"] == "z":
@@ -155,7 +160,7 @@ def oracle(c):
                         return f"{f!r} and its alias {c['alias']!r} differ on new data"
     if kind.startswith("binary"):
         import re
-        m = re.search(r"binary\((\w+)(?:, ('?)([^')]*)'?)?\)", f)
+        m = re.search(r"binary\((\w+)(?:, ('?)(-?[^')]*)'?)?\)", f)
         var, succ = m.group(1), m.group(3)
         col = df[var]
         if succ is None:
